@@ -173,6 +173,119 @@ theorem session_item_index (m : κ → α → Bool) (o : Opts) (q : κ) (src : L
   · exact h2
   · cases h2
 
+
+/-! ### the premise of the atomic-handler reduction, proved on the model
+
+The model runs every handler of the event loop atomically and lets each read of a foreign flag return
+the current value or a stale `false`.  That this covers every finer interleaving rests on the three flags
+being MONOTONE under every step of the other threads: once true they stay true until M itself acts.
+(So a read made earlier inside a handler returned either the final value or `false`.) -/
+
+/-- labels of the other threads (reader, matcher, timer, input thread) -/
+def Label.foreign : Label α κ → Bool
+  | .loop _ => false
+  | _ => true
+
+/-- `stopped`, `is_done` and `taken = length` are monotone under every step that is not M's own -/
+theorem c01_flags_monotone (m : κ → α → Bool) (s s' : St α κ) (l : Label α κ) (hl : l.foreign = true)
+    (hs : step m s l = some s') :
+    (matcherStopped s = true → matcherStopped s' = true) ∧
+    (readerDone s = true → readerDone s' = true) ∧
+    (s.mc.isNone = true → itemsConsumed s = true → itemsConsumed s' = true) := by
+  cases l with
+  | loop rd => simp [Label.foreign] at hl
+  | rPush =>
+    simp only [step, stepWith] at hs
+    split at hs
+    · cases hs
+    · split at hs
+      · rename_i x u hlive hu
+        cases hs
+        refine ⟨fun h => h, ?_, fun _ h => h⟩
+        intro h; simp [readerDone, hlive] at h
+      · cases hs
+  | rEnd =>
+    simp only [step, stepWith] at hs
+    split at hs
+    · cases hs
+    · split at hs
+      · rename_i hlive hu
+        cases hs
+        refine ⟨fun h => h, ?_, fun _ h => h⟩
+        intro h; simp [readerDone, hlive] at h
+      · cases hs
+  | tTake =>
+    simp only [step, stepWith] at hs
+    split at hs
+    · rename_i r hmc
+      split at hs
+      · rename_i hp
+        cases hs
+        refine ⟨?_, fun h => h, ?_⟩
+        · intro h; simp [matcherStopped, hmc] at h
+          have hp' : r.phase = .spawned := by simpa using hp
+          rw [hp'] at h; cases h
+        · intro h; simp [hmc] at h
+      · cases hs
+    · cases hs
+  | tPublish =>
+    simp only [step, stepWith] at hs
+    split at hs
+    · rename_i r hmc
+      split at hs
+      · rename_i hp
+        cases hs
+        refine ⟨?_, fun h => h, fun _ h => h⟩
+        intro h; simp [matcherStopped, hmc] at h
+        have hp' : r.phase = .matching := by simpa using hp
+        rw [hp'] at h; cases h
+      · cases hs
+    · cases hs
+  | tStop =>
+    simp only [step, stepWith] at hs
+    split at hs
+    · split at hs
+      · cases hs
+        exact ⟨fun _ => by simp [matcherStopped], fun h => h, fun _ h => h⟩
+      · cases hs
+    · cases hs
+  | timer =>
+    simp only [step, stepWith] at hs
+    split at hs
+    · cases hs; exact ⟨fun h => h, fun h => h, fun _ h => h⟩
+    · cases hs
+  | user e =>
+    simp only [step, stepWith] at hs
+    split at hs
+    · cases hs
+    · cases hs; exact ⟨fun h => h, fun h => h, fun _ h => h⟩
+
+/-- ... and while a matcher run is outstanding, `taken = length` can only be made true (by its take),
+    never false again, because nobody but M appends or resets -/
+theorem c01_consumed_monotone (m : κ → α → Bool) (s s' : St α κ) (l : Label α κ) (hl : l.foreign = true)
+    (hs : step m s l = some s') (hinv : Inv m s) :
+    itemsConsumed s = true → itemsConsumed s' = true := by
+  intro h
+  cases l with
+  | loop rd => simp [Label.foreign] at hl
+  | tTake =>
+    simp only [step, stepWith] at hs
+    split at hs
+    · split at hs
+      · cases hs; simp [itemsConsumed, Pool.take]
+      · cases hs
+    · cases hs
+  | rPush => simp only [step, stepWith] at hs; split at hs <;> try cases hs
+             split at hs <;> cases hs; exact h
+  | rEnd => simp only [step, stepWith] at hs; split at hs <;> try cases hs
+            split at hs <;> cases hs; exact h
+  | tPublish => simp only [step, stepWith] at hs; split at hs <;> try cases hs
+                split at hs <;> cases hs; exact h
+  | tStop => simp only [step, stepWith] at hs; split at hs <;> try cases hs
+             split at hs <;> cases hs; exact h
+  | timer => simp only [step, stepWith] at hs; split at hs <;> cases hs; exact h
+  | user e => simp only [step, stepWith] at hs; split at hs <;> cases hs; exact h
+
 /-! ### the unfixed code violates the property (witness that the `fix:` was needed) -/
 
 /-- With the handler of the unfixed code (is_done read twice) there is a history — reader finishing
